@@ -82,6 +82,21 @@ func (s *Sched) waitEventTimeout(d time.Duration) bool {
 	}
 }
 
+// waitEventOf waits for the event of task t only.
+//
+//go:norace
+func (s *Sched) waitEventOf(t *Task, d time.Duration) bool {
+	deadline := time.Now().Add(d)
+	for n := 0; t.ho.evt == 0; n++ {
+		runtime.Gosched()
+		if n%1024 == 0 && time.Now().After(deadline) {
+			return false
+		}
+	}
+	t.ho.evt = 0
+	return true
+}
+
 // publishDone / acquireDone give the oracle (the scheduler goroutine, after
 // the execution) a REAL happens-before edge from each finished task, by one
 // atomic store / load per task: task -> oracle only, never task -> task.
